@@ -254,13 +254,22 @@ def _eval_through_helper(repo, d, v, f):
     if isinstance(v, ast.Call) and isinstance(v.func, (ast.Name, ast.Attribute)) and not v.keywords:
         target = repo.resolve_expr(v.func, d.module, d) if isinstance(v.func, ast.Attribute) else repo.lookup_name(v.func.id, d.module, d)
         from ..model import Def as _Def
-        if isinstance(target, _Def) and not target.is_lambda and target.cls is None:
-            params = target.params
+        if target is None and isinstance(v.func, ast.Attribute) and isinstance(v.func.value, ast.Name) and v.func.value.id in ("self", "cls") and d.cls is not None:
+            target = d.cls.lookup_method(v.func.attr)  # a shared helper kept on a base class: self._normalize_index(key, len(self))
+        if isinstance(target, _Def) and not target.is_lambda:
+            params = [p_ for p_ in target.params if p_ not in ("self", "cls")]
             if len(params) == len(v.args):
                 env = {}
                 for p_, a_ in zip(params, v.args):
                     env[p_] = 5 if norm_src(a_) == "len(self)" else f.eval(a_)
-                body = [s_ for s_ in target.node.body if not (isinstance(s_, ast.Expr) and isinstance(s_.value, ast.Constant))]
+                body = []
+                for s_ in target.node.body:
+                    if isinstance(s_, ast.Expr) and isinstance(s_.value, ast.Constant):
+                        continue
+                    if isinstance(s_, ast.Assign) and len(s_.targets) == 1 and isinstance(s_.targets[0], ast.Name) and norm_src(s_.value) == "len(self)":
+                        env[s_.targets[0].id] = 5  # the helper measures the view itself
+                        continue
+                    body.append(s_)
                 out = run_block(body, Folder(repo, target.module, target, env), lambda c: False)
                 if out.raised:
                     return "raise"
